@@ -202,7 +202,8 @@ func (vc *VC) freshValue(hint string, t SType) Value {
 		vc.script.Assume(Ge(r, Zero))
 		return vc.wrap(r, t)
 	case KArray:
-		vc.fail("array values unsupported (%s)", t)
+		// an array VALUE is an opaque identifier (its elements are only modelled behind a pointer)
+		return vc.script.Declare(hint+":arrayval", SInt)
 	case KFunc:
 		return vc.script.Declare(hint, SInt)
 	}
@@ -373,8 +374,6 @@ func (vc *VC) zeroValue(t SType) Value {
 		return False
 	case KSet, KSeq:
 		return ZeroOf(t.SortOf())
-	case KArray:
-		vc.fail("array zero value unsupported")
 	}
 	return Zero
 }
@@ -396,8 +395,19 @@ func (vc *VC) loadValue(st *State, loc Loc, t SType) Value {
 		return sv
 	case KSlice:
 		return vc.readLoc(st.heap, loc, t)
-	case KArray, KTuple:
+	case KTuple:
 		vc.fail("load of %s unsupported", t)
+	case KArray:
+		// whole-array load: an opaque array value. For an array field the value is kept in a cell of its own
+		// ("#val"); for an array object addressed by reference (a local whose address was taken) the value is
+		// unrelated to the element contents (sound over-approximation).
+		vc.note("array values are opaque (whole-array loads and stores are not related to element accesses)")
+		if strings.HasPrefix(loc.Prefix, "elems:") {
+			return vc.script.Declare("arrayval", SInt)
+		}
+		vloc := Loc{loc.Prefix + "#val", loc.Idx}
+		vc.registerComp(vloc.Prefix, compInfo{Sort: nestSort(SInt, len(loc.Idx)), Depth: len(loc.Idx)})
+		return vc.readCell(st.heap, vloc)
 	}
 	v := vc.readLoc(st.heap, loc, t).(Term)
 	return vc.wrap(v, t)
@@ -426,8 +436,43 @@ func (vc *VC) storeValue(st *State, loc Loc, t SType, v Value) {
 		vc.writeCell(st, Loc{loc.Prefix + "#len", loc.Idx}, sv.Len)
 		vc.writeCell(st, Loc{loc.Prefix + "#cap", loc.Idx}, sv.Cap)
 		return
-	case KArray, KTuple:
+	case KTuple:
 		vc.fail("store of %s unsupported", t)
+	case KArray:
+		vc.note("array values are opaque (whole-array loads and stores are not related to element accesses)")
+		if t.Elem.K != KUnit {
+			func() {
+				defer func() {
+					if rr := recover(); rr != nil {
+						if e2, isEval := rr.(evalError); isEval {
+							vc.fail("%s", e2.msg)
+						}
+						panic(rr)
+					}
+				}()
+				if strings.HasPrefix(loc.Prefix, "elems:") && len(loc.Idx) == 1 {
+					// the element contents of the target array object become unknown
+					for _, ln := range vc.elemLanes(*t.Elem) {
+						vc.hset(st, ln.comp, Store(vc.hget(st.heap, ln.comp), loc.Idx[0], vc.script.Declare("arraystore", ArrSort(SInt, ln.sort))))
+						vc.noteWrite(ln.comp, loc.Idx[0])
+					}
+					return
+				}
+				if len(loc.Idx) == 1 && t.Elem.single() {
+					// element view of an array field (used by &s.f[i]): forget it
+					vc.registerComp(loc.Prefix, compInfo{Sort: ArrSort(SInt, ArrSort(SInt, t.Elem.SortOf())), Depth: 2})
+					vc.hset(st, loc.Prefix, Store(vc.hget(st.heap, loc.Prefix), loc.Idx[0], vc.script.Declare("arraystore", ArrSort(SInt, t.Elem.SortOf()))))
+					vc.noteWrite(loc.Prefix, loc.Idx[0])
+				}
+			}()
+		}
+		if strings.HasPrefix(loc.Prefix, "elems:") {
+			return
+		}
+		vloc := Loc{loc.Prefix + "#val", loc.Idx}
+		vc.registerComp(vloc.Prefix, compInfo{Sort: nestSort(SInt, len(loc.Idx)), Depth: len(loc.Idx)})
+		vc.writeCell(st, vloc, vc.toTerm(v))
+		return
 	}
 	vc.readLoc(st.heap, loc, t) // registers component
 	vc.writeCell(st, loc, vc.toTerm(v))
